@@ -1,7 +1,8 @@
 (* C17 - AR simulation and residual computation are exact inverses.
    Statements only; every proof is `exact <lemma of Proofs/ArmodelProofs.v>`. *)
 From Coq Require Import ZArith Bool List Reals.
-From Hy Require Import Base.Num Gen.Consts Model.Armodel Proofs.ArmodelProofs.
+From Hy Require Import Base.Num Base.MiniC Gen.KernelsAst Gen.Consts Model.Armodel Proofs.ArmodelProofs
+  Proofs.RefineArmodel Proofs.KernelArmodel.
 Import ListNotations.
 Open Scope R_scope.
 
@@ -90,3 +91,124 @@ Print Assumptions C17_order_fits_buffers.
 Example C17_nonvacuous : ar_params_ok RR 1 3 [1/2; -1/4] = true.
 Proof. exact params_ok_example. Qed.
 Print Assumptions C17_nonvacuous.
+
+(* ================================================================== *)
+(* The same property on the REGENERATED program: [program] is the MiniC  *)
+(* translation of src/hydrodiy/stat/c_armodels.c produced from the tree  *)
+(* under test on every run (Gen/KernelsAst.v); [exec_fun] its           *)
+(* interpreter (Base/MiniC.v).  An edit of the C text changes [program]  *)
+(* and these proofs must still go through.                               *)
+(* ================================================================== *)
+
+From Coq Require Import String PrimFloat.
+Open Scope string_scope.
+Open Scope list_scope.
+Open Scope R_scope.
+
+(* refinement, any arithmetic instance (binary64 included): the translated
+   kernels return exactly what the model returns - outputs on success, a
+   positive code and untouched arrays on rejection - for every order, every
+   length, every content (NaN included) and every initial buffer content *)
+Theorem C17_kernel_sim_refines_model : forall {T} (N : NumOps T) (X : NumLit T)
+    mean ini params innov junk n,
+  nofZ N 0 = n0 N ->
+  List.length junk = List.length innov ->
+  (Nat.max (List.length innov) 10 < n)%nat ->
+  match armodel_sim N mean ini params innov with
+  | ArOk out =>
+      exec_fun N X program (S n) "c_armodel_sim"
+        [AVI (zlen innov); AVI (zlen params); AVF mean; AVF ini;
+         AVArrF params; AVArrF innov; AVArrF junk]
+      = Ok (RI 0%Z, [VArrF params; VArrF innov; VArrF out])
+  | ArErr =>
+      exists code, (0 < code)%Z /\
+      exec_fun N X program (S n) "c_armodel_sim"
+        [AVI (zlen innov); AVI (zlen params); AVF mean; AVF ini;
+         AVArrF params; AVArrF innov; AVArrF junk]
+      = Ok (RI code, [VArrF params; VArrF innov; VArrF junk])
+  end.
+Proof. exact @refine_armodel_sim. Qed.
+Print Assumptions C17_kernel_sim_refines_model.
+
+Theorem C17_kernel_residual_refines_model : forall {T} (N : NumOps T) (X : NumLit T)
+    mean ini params inputs junk n,
+  nofZ N 0 = n0 N ->
+  List.length junk = List.length inputs ->
+  (Nat.max (List.length inputs) 10 < n)%nat ->
+  match armodel_residual N mean ini params inputs with
+  | ArOk out =>
+      exec_fun N X program (S n) "c_armodel_residual"
+        [AVI (zlen inputs); AVI (zlen params); AVF mean; AVF ini;
+         AVArrF params; AVArrF inputs; AVArrF junk]
+      = Ok (RI 0%Z, [VArrF params; VArrF inputs; VArrF out])
+  | ArErr =>
+      exists code, (0 < code)%Z /\
+      exec_fun N X program (S n) "c_armodel_residual"
+        [AVI (zlen inputs); AVI (zlen params); AVF mean; AVF ini;
+         AVArrF params; AVArrF inputs; AVArrF junk]
+      = Ok (RI code, [VArrF params; VArrF inputs; VArrF junk])
+  end.
+Proof. exact @refine_armodel_residual. Qed.
+Print Assumptions C17_kernel_residual_refines_model.
+
+(* the arithmetic hypothesis holds in the three instances *)
+Example C17_kernel_hyp_instances :
+  nofZ F64 0 = n0 F64 /\ nofZ RR 0 = n0 RR /\ nofZ RN 0 = n0 RN.
+Proof. exact (conj nofZ0_F64 (conj nofZ0_RR nofZ0_RN)). Qed.
+
+(* the translated simulation kernel, run on real numbers, IS the recursion *)
+Theorem C17_kernel_sim_is_recursion : forall m ini params e buf n,
+  ar_params_ok RR m ini params = true ->
+  List.length buf = List.length e -> (Nat.max (List.length e) 10 < n)%nat ->
+  run_sim n m ini params e buf =
+  Ok (RI 0%Z, [VArrF params; VArrF e;
+               VArrF (map (fun z => z + m) (ar_rec params (ini - m) [] e))]).
+Proof. exact kernel_sim_is_recursion. Qed.
+Print Assumptions C17_kernel_sim_is_recursion.
+
+(* residual(sim(e)) = e and sim(residual(y)) = y, executed on the translated kernels *)
+Theorem C17_kernel_residual_of_sim : forall m ini params e buf1 buf2 n,
+  ar_params_ok RR m ini params = true ->
+  List.length buf1 = List.length e -> List.length buf2 = List.length e ->
+  (Nat.max (List.length e) 10 < n)%nat ->
+  exists y,
+    run_sim n m ini params e buf1 = Ok (RI 0%Z, [VArrF params; VArrF e; VArrF y]) /\
+    run_res n m ini params y buf2 = Ok (RI 0%Z, [VArrF params; VArrF y; VArrF e]).
+Proof. exact kernel_residual_of_sim. Qed.
+Print Assumptions C17_kernel_residual_of_sim.
+
+Theorem C17_kernel_sim_of_residual : forall m ini params y buf1 buf2 n,
+  ar_params_ok RR m ini params = true ->
+  List.length buf1 = List.length y -> List.length buf2 = List.length y ->
+  (Nat.max (List.length y) 10 < n)%nat ->
+  exists e,
+    run_res n m ini params y buf1 = Ok (RI 0%Z, [VArrF params; VArrF y; VArrF e]) /\
+    run_sim n m ini params e buf2 = Ok (RI 0%Z, [VArrF params; VArrF e; VArrF y]).
+Proof. exact kernel_sim_of_residual. Qed.
+Print Assumptions C17_kernel_sim_of_residual.
+
+(* non-vacuity: an order-2 model, three steps, on the translated kernel in binary64 *)
+Example C17_kernel_runs :
+  exec_fun F64 XF64 program 20 "c_armodel_sim"
+    [AVI 3%Z; AVI 2%Z; AVF 1%float; AVF 2%float; AVArrF [0.5%float; 0.25%float];
+     AVArrF [1%float; 0%float; (-1)%float]; AVArrF [9%float; 9%float; 9%float]]
+  = Ok (RI 0%Z, [VArrF [0.5%float; 0.25%float]; VArrF [1%float; 0%float; (-1)%float];
+                 VArrF [2.75%float; 2.125%float; 1%float]]).
+Proof. vm_compute. reflexivity. Qed.
+
+(* unsupported orders and NaN parameters are rejected by the translated kernels:
+   positive return code, arrays untouched *)
+Theorem C17_kernel_rejects : forall {T} (N : NumOps T) (X : NumLit T) m ini params s buf n,
+  nofZ N 0 = n0 N ->
+  ar_params_ok N m ini params = false ->
+  List.length buf = List.length s -> (Nat.max (List.length s) 10 < n)%nat ->
+  (exists code, (0 < code)%Z /\
+     exec_fun N X program (S n) "c_armodel_sim"
+       [AVI (zlen s); AVI (zlen params); AVF m; AVF ini; AVArrF params; AVArrF s; AVArrF buf]
+     = Ok (RI code, [VArrF params; VArrF s; VArrF buf])) /\
+  (exists code, (0 < code)%Z /\
+     exec_fun N X program (S n) "c_armodel_residual"
+       [AVI (zlen s); AVI (zlen params); AVF m; AVF ini; AVArrF params; AVArrF s; AVArrF buf]
+     = Ok (RI code, [VArrF params; VArrF s; VArrF buf])).
+Proof. exact @kernel_rejects. Qed.
+Print Assumptions C17_kernel_rejects.
